@@ -599,6 +599,37 @@ var c14Scaled = []struct {
 		}
 		return b
 	}},
+	{"one unknown field name of k characters beginning with a non-ASCII letter and k instances", func(k int) []byte {
+		b := append([]byte{'C', 0x05, 'I', 'n', 'n', 'e', 'r', 0x91, 'S'}, byte(k>>8), byte(k))
+		b = append(b, 0xc3, 0xbc) // ü
+		for i := 1; i < k; i++ {
+			b = append(b, 'x')
+		}
+		b = append(append(b, 0x58), encInt(int32(k))...)
+		for i := 0; i < k; i++ {
+			b = append(b, 0x60, 0x90)
+		}
+		return b
+	}},
+	{"k objects whose pointer-to-slice field refers to one list of k nulls", func(k int) []byte {
+		b := append([]byte{0x58}, encInt(int32(k+1))...)
+		b = append(append(b, 0x58), encInt(int32(k))...)
+		for i := 0; i < k; i++ {
+			b = append(b, 'N')
+		}
+		b = append(b, "C\x08PtrConts\x91\x05likes"...)
+		for i := 0; i < k; i++ {
+			b = append(b, 0x60, 0x51, 0x91)
+		}
+		return b
+	}},
+	{"k nested lists each declaring k elements, then the end of the input", func(k int) []byte {
+		var b []byte
+		for i := 0; i < k; i++ {
+			b = append(append(b, 0x58), encInt(int32(k))...)
+		}
+		return b
+	}},
 	{"a list of k lists that each hold one reference to the first list of k elements", func(k int) []byte {
 		b := append([]byte{0x58}, encInt(int32(k+1))...)
 		b = append(append(b, 0x58), encInt(int32(k))...)
